@@ -1,0 +1,16 @@
+//go:build verif
+
+package kv
+
+import "github.com/go-kit/log"
+
+// Hooks for the verification harness in /verif (build tag "verif"). Add-only: exported doors onto
+// constructors that take unexported types.
+
+// VerifNewMultiClient builds a MultiClient over two plain clients (the first one is primary).
+func VerifNewMultiClient(cfg MultiConfig, primary, secondary Client, logger log.Logger) *MultiClient {
+	return NewMultiClient(cfg, []kvclient{{client: primary, name: "primary"}, {client: secondary, name: "secondary"}}, logger, nil)
+}
+
+// VerifNewMetricsClient wraps a client with the request-duration instrumentation used by NewClient.
+func VerifNewMetricsClient(backend string, c Client) Client { return newMetricsClient(backend, c, nil) }
